@@ -158,6 +158,59 @@ func evalHandler(r *mc.Run, c HandlerCase) {
 	}
 	ser := commands.Serializer{Domain: hDomain, Upstream: util.UpstreamConfig{Encoder: enc.Base32Encoding}}
 	outcomes := map[string]int{}
+	if c.From == 0 {
+		// error answers: a request for a session the server does not know (restart, expiry) and a
+		// request that is no command at all are answered with an error code; the client, which
+		// decodes with the codec IT negotiated, must read that very code (or fail to decode)
+		for _, probe := range []struct {
+			what string
+			req  commands.Request
+			want error
+		}{
+			{"unknown session", &commands.TestDownstreamFragmentSizeRequest{UserId: 1111, FragmentSize: 10}, commands.BadUser},
+			{"unknown session (packet)", &commands.PacketRequest{UserId: 1112, LastAckedSeqNo: 7}, commands.BadUser},
+		} {
+			r.Eval(1)
+			m, err := ser.EncodeDnsRequestWithParams(probe.req, dnsmessage.Type(c.QType), enc.Base32Encoding)
+			if err != nil {
+				continue
+			}
+			w, pan := hDeliver(m)
+			if pan != "" {
+				r.Fail("panic|through-handler", fmt.Sprintf("%s %s: %s", c, probe.what, pan), 0, c)
+				return
+			}
+			if len(w.msgs) == 0 {
+				continue
+			}
+			packed, err := w.msgs[0].Pack()
+			if err != nil {
+				continue
+			}
+			a := new(dns.Msg)
+			if a.Unpack(packed) != nil {
+				continue
+			}
+			resp, err := ser.DecodeDnsResponseWithParams(a, codec)
+			if err != nil {
+				continue // reported failure
+			}
+			got := fmt.Sprintf("%T", resp)
+			switch v := resp.(type) {
+			case *commands.ErrorResponse:
+				got = fmt.Sprint(v.Err)
+			case *commands.TestDownstreamFragmentSizeResponse:
+				got = fmt.Sprint(v.Err)
+			case *commands.PacketResponse:
+				got = fmt.Sprint(v.Err)
+			}
+			if got != probe.want.Error() {
+				r.Fail(fmt.Sprintf("silently-different|through-handler|error-answer|%s", c.Codec), fmt.Sprintf("%s: request for an %s: the server answers %v; the client, decoding with its negotiated codec %s, reads %q", c, probe.what, probe.want, c.Codec, got), 0, c)
+				return
+			}
+			outcomes["error-code-carried"]++
+		}
+	}
 	for n := c.From; n <= c.To; n++ {
 		r.Eval(1)
 		r.Transition(2)
